@@ -61,6 +61,7 @@ func (t *tracer) run(ctx context.Context) {
 	for {
 		select {
 		case sch := <-t.subscription:
+			verifAt("tracer.subscribe")
 			t.subscribers = append(t.subscribers, sch.channel)
 			sch.ok <- struct{}{}
 		case unsch := <-t.unSubscription:
@@ -83,7 +84,9 @@ func (t *tracer) run(ctx context.Context) {
 				unsch.ok <- struct{}{}
 			}
 		case trace := <-t.traces:
+			verifAt("tracer.take")
 			for _, subscriber := range t.subscribers {
+				verifAt("tracer.deliver")
 				subscriber <- trace
 			}
 		case <-ctx.Done():
